@@ -348,13 +348,18 @@ func (a *VersionedAttestation) UnmarshalSSZ(b []byte) error {
 	if err != nil {
 		// Previously a bug was introduced where validator index was not marshaled.
 		// Ensure backwards compatibility with nodes that have not yet updated to the new fixed version.
-		if !errors.Is(err, ssz.ErrOffset) {
-			return errors.Wrap(err, "unmarshal VersionedAttestation")
-		}
+		// The legacy layout is tried after any failure of the current one, not only after an offset mismatch: a legacy
+		// encoding has the low 32 bits of the attestation slot where the current layout has its offset, so a legacy
+		// attestation for slot 20 (mod 2^32) passes the offset check and fails only in the inner decode.
+		var legacyErr error
 
-		version, err = unmarshalSSZVersioned(b, a.sszValFromVersion)
-		if err != nil {
-			return errors.Wrap(err, "unmarshal VersionedAttestation without validator index")
+		version, legacyErr = unmarshalSSZVersioned(b, a.sszValFromVersion)
+		if legacyErr != nil {
+			if !errors.Is(err, ssz.ErrOffset) {
+				return errors.Wrap(err, "unmarshal VersionedAttestation")
+			}
+
+			return errors.Wrap(legacyErr, "unmarshal VersionedAttestation without validator index")
 		}
 	}
 
